@@ -27,6 +27,9 @@ def _check(doc, flags, bits, list_kind, early, lazy, choices, stop_after, abort_
         return (False, "harness exception")
     if d.hang:
         return (False, "the awaiting caller is never released")
+    # (d.leftover -- resolver coroutines not yet cancelled/finished when the response was complete --
+    # is recorded but not judged: work that is merely still running is allowed by the documented
+    # contract as long as it settles and the hook fires afterwards)
     if loop._ready or loop.pending_tasks() or world.inflight:
         return (False, "not quiescent: pending tasks / resolver coroutines in flight")
     if world.gens_started != world.gens_closed:
@@ -40,13 +43,13 @@ def _check(doc, flags, bits, list_kind, early, lazy, choices, stop_after, abort_
     return (True, "")
 
 
-def stop_points(f0: bool, f1: bool, b0: bool, b1: bool, b2: bool, b3: bool, lazy: bool, c0: int, c1: int, c2: int, c3: int,
+def stop_points(f0: bool, f1: bool, b0: bool, b1: bool, b2: bool, b3: bool, b4: bool, lazy: bool, c0: int, c1: int, c2: int, c3: int,
                 stop_after: int, abort_at: int, reason_kind: int, *, doc: int, list_kind: int, early: bool, kind: int, nn_null: bool = False) -> bool:
     """For every stop point and stop kind: the caller is released, the loop reaches quiescence
     with nothing started by the execution still pending, every started source iterator is closed
     exactly once, and the work-finished hook fires exactly once after all tracked work settled."""
     flags = [True if f else False for f in (f0, f1)] + [True, True]
-    bits = [True if b else False for b in (b0, b1, b2, b3)] + [False, False, False, False]
+    bits = [True if b else False for b in (b0, b1, b2, b3)] + [False, True if b4 else False, False, False]
     sa = aa = sf = None
     if list_kind == 3:
         aa = 99        # an abort signal is configured but never fires
@@ -67,7 +70,7 @@ def stop_points(f0: bool, f1: bool, b0: bool, b1: bool, b2: bool, b3: bool, lazy
 
 BOUNDS = {
     "quick": [
-        "templates 0, 2, 4, 6, 10, 11 of the incremental family; stop kinds: none / aclose after 0..3 payloads / abort signal (AbortError, an exception, a non-exception reason) before the 0..5th settlement / source iterator raising at item 0..2 / resolver errors; symbolic directive flags, 4 sync-or-awaitable positions, consumer timing, 4 scheduler decisions; cells: template x list kind x early execution x stop kind",
+        "templates 0, 2, 4, 6, 10, 11 of the incremental family; stop kinds: none / aclose after 0..3 payloads / abort signal (AbortError, an exception, a non-exception reason) before the 0..5th settlement / source iterator raising at item 0..2 / resolver errors; symbolic directive flags, 5 sync-or-awaitable positions, consumer timing, 4 scheduler decisions; cells: template x list kind x early execution x stop kind",
     ],
     "thorough": ["all 12 templates, larger budget"],
 }
@@ -100,7 +103,7 @@ def obligations(tier):
 
 
 def corpus():
-    base = dict(f0=True, f1=True, b0=False, b1=False, b2=False, b3=False, lazy=False, c0=0, c1=0, c2=0, c3=0, stop_after=1, abort_at=1, reason_kind=1)
+    base = dict(f0=True, f1=True, b0=False, b1=False, b2=False, b3=False, b4=False, lazy=False, c0=0, c1=0, c2=0, c3=0, stop_after=1, abort_at=1, reason_kind=1)
     for c in cells("quick"):
         yield "stop_points", c, dict(base)
         yield "stop_points", c, dict(base, b0=True, b3=True, stop_after=0, abort_at=0, reason_kind=2)
